@@ -768,6 +768,16 @@ pub fn gen_inv(rng: &mut Rng, tree: &Tree, docs: &mut Docs, focus: Focus, main_s
         }
     }
     let debug_ok = debug_output_is_small(tree, stdin.as_ref().map(|b| b.0.as_slice()));
+    let mut env = gen_env(rng);
+    let many_inputs = match &shape {
+        Shape::Files { paths, .. } => paths.len() >= 60,
+        Shape::FormatAll { .. } => tree.values().filter(|n| matches!(n, Node::File(_))).count() >= 60,
+        _ => false,
+    };
+    if many_inputs && rng.chance(0.4) {
+        // a small `ulimit -n`: fine for a tool that closes what it opens
+        env.push(("VSIM_NOFILE".to_string(), "48".to_string()));
+    }
     Inv {
         shape,
         style,
@@ -778,7 +788,7 @@ pub fn gen_inv(rng: &mut Rng, tree: &Tree, docs: &mut Docs, focus: Focus, main_s
         plan: Vec::new(),
         shim_seed: rng.next_u64() >> 1,
         readdir: rng.pick(&["perm", "perm", "perm", "sorted", "reverse", "native"]).to_string(),
-        env: gen_env(rng),
+        env,
         dashdash: rng.chance(0.08),
         debug: if rng.chance(0.04) && debug_ok { *rng.pick(&[1u8, 2, 3, 5, 6, 7]) } else { 0 },
     }
